@@ -280,6 +280,26 @@ def run_loss_history(res: Result, h, label, pre_setup=None):
 
         if pre_setup:
             pre_setup()
+        # another thread asks for a new channel and listens on it while the connection is going away: either it is told
+        # that the gateway is gone (OSError) or its callback gets the endmarker like everybody else's
+        late_got: list = []
+        late_state: list = []
+
+        def late():
+            time.sleep((hid % 5) * 0.002)
+            try:
+                c2 = sp.gw.newchannel()
+            except OSError:
+                late_state.append("refused")
+                return
+            try:
+                c2.setcallback(late_got.append, endmarker="<late-end>")
+                late_state.append("listening")
+            except OSError:
+                late_state.append("closed-before-listening")
+
+        lt = threading.Thread(target=late, daemon=True)
+        lt.start()
         when = h["when"]
         pre_received: list = []
         if when == "before":
@@ -326,6 +346,16 @@ def run_loss_history(res: Result, h, label, pre_setup=None):
             pairs.wait_until(lambda: len(pre_received) + len(got) >= n, 15.0)
             time.sleep(0.002)
         check_callback_log(res, h, pre_received + list(got), label, m)
+        lt.join(10)
+        if late_state == ["listening"]:
+            pairs.wait_until(lambda: late_got, 15.0)
+            time.sleep(0.002)
+            res.count("late_listeners_on_a_dying_connection")
+            if late_got != ["<late-end>"]:
+                res.violation(m("endmarker-never-delivered-to-late-channel" if not late_got else "late-channel-callback-log-wrong"),
+                              f"{label}: a channel made while the connection was ending got {late_got!r}")
+        elif not late_state:
+            res.violation(m("newchannel-or-setcallback-blocked"), label)
         res.count("histories")
         res.count("connection_loss_histories")
     finally:
@@ -472,7 +502,7 @@ def run_shard(spec):
         else:
             lines = imodel.function_lines(gb.Channel.setcallback, gb.ChannelFactory._local_receive, gb.ChannelFactory._local_close,
                                           gb.ChannelFactory._no_longer_opened, gb.ChannelFactory._finished_receiving,
-                                          gb.BaseGateway._thread_receiver, gb.Channel.close, gb.Channel.__del__)
+                                          gb.BaseGateway._thread_receiver, gb.Channel.close, gb.Channel.__del__, gb.ChannelFactory.new)
             res.info["sweep_lines"] = len(lines)
             targets = [(ln, k, ending) for ln in lines for k in spec["ks"] for ending in ENDINGS]
             targets = [t for i, t in enumerate(targets) if i % spec["parts"] == spec["part"]]
